@@ -152,8 +152,21 @@ class Publishable(Applicable):
             self.republish(subscription)
         except Exception as err:
             # TO-DO: use weakref
+            self._node._unpublish(self._index, subscription)  # pylint: disable=protected-access
             Subscription._PORTS[subscriber].discard(port)  # pylint: disable=protected-access
             raise err
+
+    def unpublish(self, subscriber: 'flow.Node', port: Type) -> None:
+        """Withdraw a previously published subscription (rollback of a partially failed operation).
+
+        Args:
+            subscriber: Node that has been published to.
+            port: Port that has been published to.
+        """
+        for subscription in self._node.output[self._index]:
+            if subscription.node is subscriber and subscription.port == port:
+                self._node._unpublish(self._index, subscription)  # pylint: disable=protected-access
+                Subscription._PORTS[subscriber].discard(port)  # pylint: disable=protected-access
 
     def republish(self, subscription: 'flow.Subscription') -> None:
         """Publish existing subscription.
